@@ -277,6 +277,50 @@ func litField(alloc ssa.Value, name string) ssa.Value {
 	return val
 }
 
+// litFieldAt is litField for a struct variable that is filled in step by step and used more than once (`var out T;
+// out.err = e; send(out); ...; out.v = cfg; send(out)`): the value field `name` holds where instruction `use` reads
+// the variable - the one store to the field that reaches `use` without another store to it in between, the zero
+// constant when none does (zero = true), nil when several can.
+func litFieldAt(alloc ssa.Value, name string, use ssa.Instruction) (val ssa.Value, zero bool) {
+	a, ok := alloc.(*ssa.Alloc)
+	if !ok {
+		return nil, false
+	}
+	var stores []*ssa.Store
+	for _, r := range *a.Referrers() {
+		fa, ok := r.(*ssa.FieldAddr)
+		if !ok || fieldName(fa.X.Type(), fa.Field) != name {
+			continue
+		}
+		for _, rr := range *fa.Referrers() {
+			if s, ok := rr.(*ssa.Store); ok && s.Addr == fa {
+				stores = append(stores, s)
+			}
+		}
+	}
+	var reaching []*ssa.Store
+	for _, s := range stores {
+		other := func(i ssa.Instruction) bool {
+			for _, o := range stores {
+				if o != s && i == ssa.Instruction(o) {
+					return true
+				}
+			}
+			return false
+		}
+		if reachAvoid(a.Parent(), s, func(i ssa.Instruction) bool { return i == use }, other) != nil {
+			reaching = append(reaching, s)
+		}
+	}
+	switch len(reaching) {
+	case 0:
+		return nil, true
+	case 1:
+		return reaching[0].Val, false
+	}
+	return nil, false
+}
+
 // allocOf unwraps MakeInterface/ChangeType to the allocation of a literal.
 func allocOf(v ssa.Value) *ssa.Alloc {
 	a, _ := stripConv(v).(*ssa.Alloc)
@@ -1498,6 +1542,64 @@ func isBoolLoopPhi(ph *ssa.Phi) bool {
 		if ph.Block().Dominates(p) {
 			return true
 		}
+	}
+	return false
+}
+
+// actualsOf: the arguments passed for parameter p at every call site of its function (nil when the function's
+// value escapes or it has no visible call site).
+func (k *core) actualsOf(p *ssa.Parameter) []struct {
+	Arg  ssa.Value
+	Site ssa.CallInstruction
+} {
+	f := origin(p.Parent())
+	pi := -1
+	for i, fp := range p.Parent().Params {
+		if fp == p {
+			pi = i
+		}
+	}
+	if pi < 0 || k.cg.escapes[f] {
+		return nil
+	}
+	var out []struct {
+		Arg  ssa.Value
+		Site ssa.CallInstruction
+	}
+	for _, e := range k.cg.in[f] {
+		if e.Site == nil || e.Kind == "closure" || pi >= len(e.Site.Common().Args) {
+			return nil
+		}
+		out = append(out, struct {
+			Arg  ssa.Value
+			Site ssa.CallInstruction
+		}{e.Site.Common().Args[pi], e.Site})
+	}
+	return out
+}
+
+// isCurrentConfig: v is the installed config as read on the monitor's side: View(), the config half of
+// ViewVersion(), or a parameter that is that at every call site (the monitor is the only writer, so what it read
+// before calling the storing function is still current until that function stores).
+func (k *core) isCurrentConfig(v ssa.Value, depth int) bool {
+	v = stripConv(v)
+	if isCallToFn(v, k.view) {
+		return true
+	}
+	if k.vvCall(v, 0) != nil {
+		return true
+	}
+	if p, ok := v.(*ssa.Parameter); ok && depth < 2 {
+		acts := k.actualsOf(p)
+		if len(acts) == 0 {
+			return false
+		}
+		for _, a := range acts {
+			if !k.isCurrentConfig(a.Arg, depth+1) {
+				return false
+			}
+		}
+		return true
 	}
 	return false
 }
